@@ -440,6 +440,30 @@ func onceInitialisers(p *Prog, pkgs ...string) map[*ssa.Function]bool {
 }
 
 func globalWrites(p *Prog, pkgs ...string) []globalWrite {
+	memo := map[string]bool{}
+	for g := range pureMemos(p.SSA) {
+		memo[g.Name()] = true
+		pureMemoNames[shortGlobal(g)] = true
+	}
+	all := globalWrites0(p, pkgs...)
+	var out []globalWrite
+	for _, w := range all {
+		if w.How == "sync/atomic update" && memo[w.G] {
+			continue // a per-key memo table (see pureMemos)
+		}
+		out = append(out, w)
+	}
+	return out
+}
+
+// pureMemoNames: the memo tables found, under the names the interpreter's record of stores uses.
+var pureMemoNames = map[string]bool{}
+
+func shortGlobal(g *ssa.Global) string {
+	return strings.TrimPrefix(g.Pkg.Pkg.Path(), repoModule+"/") + "." + g.Name()
+}
+
+func globalWrites0(p *Prog, pkgs ...string) []globalWrite {
 	var out []globalWrite
 	once := onceInitialisers(p, pkgs...)
 	for _, fn := range p.SrcFuncs(pkgs...) {
@@ -522,7 +546,9 @@ func globalWrites(p *Prog, pkgs ...string) []globalWrite {
 					if callee := x.Call.StaticCallee(); callee != nil && callee.Pkg != nil && len(x.Call.Args) > 0 {
 						if pp := callee.Pkg.Pkg.Path(); pp == "sync" || pp == "sync/atomic" {
 							switch callee.Name() {
-							case "Store", "LoadOrStore", "LoadAndDelete", "Delete", "Swap", "CompareAndSwap", "CompareAndDelete", "Put", "Add", "Range", "Clear":
+							case "Store", "LoadOrStore", "LoadAndDelete", "Delete", "Swap", "CompareAndSwap", "CompareAndDelete", "Add", "Range", "Clear":
+								// (a sync.Pool is not listed: what it recycles is decided by interpretation, with a pool
+								// that hands back the object Put last)
 								if g, ok := fromGlobal(x.Call.Args[0]); ok {
 									out = append(out, globalWrite{fn, g, x.Pos(), "sync/atomic update"})
 								}
@@ -718,6 +744,17 @@ func nonNeg(v ssa.Value, assumed map[ssa.Value]bool, depth int) bool {
 			if k, ok := intConst(x.X); ok && k >= 0 {
 				return nonNeg(x.Y, assumed, depth+1)
 			}
+			// plus the width of a rune just decoded (0 to 4)
+			if runeWidth(x.Y) {
+				return nonNeg(x.X, assumed, depth+1)
+			}
+			if runeWidth(x.X) {
+				return nonNeg(x.Y, assumed, depth+1)
+			}
+		}
+	case *ssa.Extract:
+		if runeWidth(x) {
+			return true
 		}
 	case *ssa.Phi:
 		assumed[v] = true
@@ -896,4 +933,318 @@ func paramNonNeg(p *ssa.Parameter, assumed map[ssa.Value]bool, depth int) bool {
 		return false
 	}
 	return true
+}
+
+// runeWidth: v is the width result of utf8.DecodeRune / DecodeRuneInString / DecodeLastRune*, or a utf8.RuneLen.
+func runeWidth(v ssa.Value) bool {
+	if ex, ok := v.(*ssa.Extract); ok && ex.Index == 1 {
+		if c, ok := ex.Tuple.(*ssa.Call); ok {
+			if callee := c.Call.StaticCallee(); callee != nil && strings.HasPrefix(callee.String(), "unicode/utf8.Decode") {
+				return true
+			}
+		}
+	}
+	return false
+}
+
+// ---- per-key memo tables ------------------------------------------------------------------
+
+// pureMemos: package-level sync.Map variables of the repository that are nothing but a memo of a function of the
+// key, the way encoding/json caches what it learnt about a type: (M1) every use of the variable is a Load, a
+// LoadOrStore or a Store in one plain function with a single parameter; (M2) the key is that parameter itself;
+// (M3) the value stored is a slice or struct allocated in that function, completely filled before it is published
+// (no store into it is reachable from the publishing call); (M4) what the function returns is only read by its
+// callers: indexed, ranged over, measured, its elements' fields loaded, passed on to repository functions that do
+// no more with it, and never stored anywhere or returned from an exported function. Such a table does not make a
+// result depend on earlier calls and is safe for concurrent use, so the state rules leave it alone. A cache keyed
+// by something derived from the parameter, published before it is filled, or handing its entries to callers who
+// may write to them is not a memo in this sense and is reported like any other shared state.
+var pureMemoCache = map[*ssa.Program]map[*ssa.Global]bool{}
+
+func pureMemos(prog *ssa.Program) map[*ssa.Global]bool {
+	if r, ok := pureMemoCache[prog]; ok {
+		return r
+	}
+	out := map[*ssa.Global]bool{}
+	pureMemoCache[prog] = out
+	uses := map[*ssa.Global][]ssa.Instruction{}
+	for fn := range ssautil.AllFunctions(prog) {
+		if fn.Blocks == nil || !inRepoOrRef(fn) {
+			continue
+		}
+		for _, b := range fn.Blocks {
+			for _, ins := range b.Instrs {
+				for _, op := range ins.Operands(nil) {
+					if g, ok := (*op).(*ssa.Global); ok && g.Pkg != nil && strings.HasPrefix(g.Pkg.Pkg.Path(), repoModule) {
+						if pt, ok := g.Type().Underlying().(*types.Pointer); ok && pt.Elem().String() == "sync.Map" {
+							uses[g] = append(uses[g], ins)
+						}
+					}
+				}
+			}
+		}
+	}
+	for g, list := range uses {
+		if memoOK(g, list) {
+			out[g] = true
+		} else if os.Getenv("GDSA_DBG_MEMO") != "" {
+			fmt.Fprintf(os.Stderr, "not a memo: %s\n", g.Name())
+		}
+	}
+	return out
+}
+
+func memoOK(g *ssa.Global, list []ssa.Instruction) bool {
+	var f *ssa.Function
+	var publishes []*ssa.Call
+	var published []ssa.Value
+	for _, ins := range list {
+		c, ok := ins.(*ssa.Call)
+		if !ok {
+			return memoNo(g, 1)
+		}
+		callee := c.Call.StaticCallee()
+		if callee == nil || len(c.Call.Args) < 2 || c.Call.Args[0] != ssa.Value(g) {
+			return memoNo(g, 2)
+		}
+		switch callee.String() {
+		case "(*sync.Map).Load":
+		case "(*sync.Map).LoadOrStore", "(*sync.Map).Store":
+			publishes = append(publishes, c)
+			published = append(published, c.Call.Args[2])
+		default:
+			return memoNo(g, 3)
+		}
+		if f == nil {
+			f = c.Parent()
+		} else if f != c.Parent() {
+			return memoNo(g, 4)
+		}
+		// M2: the key is the function's only parameter
+		k := c.Call.Args[1]
+		if mi, ok := k.(*ssa.MakeInterface); ok {
+			k = mi.X
+		}
+		if ci, ok := k.(*ssa.ChangeInterface); ok {
+			k = ci.X
+		}
+		if f.Signature.Recv() != nil || len(f.Params) != 1 || k != ssa.Value(f.Params[0]) {
+			return memoNo(g, 5)
+		}
+	}
+	if f == nil || len(publishes) == 0 || f.Object() == nil || f.Object().Exported() {
+		return memoNo(g, 6)
+	}
+	// M3: fresh, and filled before it is published
+	for i, v := range published {
+		if mi, ok := v.(*ssa.MakeInterface); ok {
+			v = mi.X
+		}
+		root := v
+		if sl, ok := root.(*ssa.Slice); ok {
+			root = sl.X
+		}
+		switch root.(type) {
+		case *ssa.MakeSlice, *ssa.Alloc:
+		default:
+			return memoNo(g, 7)
+		}
+		after := map[*ssa.BasicBlock]bool{}
+		var walk func(b *ssa.BasicBlock)
+		walk = func(b *ssa.BasicBlock) {
+			for _, s := range b.Succs {
+				if !after[s] {
+					after[s] = true
+					walk(s)
+				}
+			}
+		}
+		walk(publishes[i].Block())
+		derived := map[ssa.Value]bool{root: true, v: true}
+		for changed := true; changed; {
+			changed = false
+			for _, b := range f.Blocks {
+				for _, ins := range b.Instrs {
+					switch x := ins.(type) {
+					case *ssa.IndexAddr:
+						if derived[x.X] && !derived[x] {
+							derived[x], changed = true, true
+						}
+					case *ssa.FieldAddr:
+						if derived[x.X] && !derived[x] {
+							derived[x], changed = true, true
+						}
+					case *ssa.Slice:
+						if derived[x.X] && !derived[x] {
+							derived[x], changed = true, true
+						}
+					}
+				}
+			}
+		}
+		for _, b := range f.Blocks {
+			for idx, ins := range b.Instrs {
+				st, ok := ins.(*ssa.Store)
+				if !ok || !derived[st.Addr] {
+					continue
+				}
+				if after[b] {
+					return memoNo(g, 8)
+				}
+				if b == publishes[i].Block() && idx > instrIndex(publishes[i]) {
+					return memoNo(g, 9)
+				}
+			}
+		}
+	}
+	// M4: the callers only read what they get
+	return readOnlyResult(f, 0)
+}
+
+// readOnlyResult: every caller of f only reads the value f returns.
+func readOnlyResult(f *ssa.Function, depth int) bool {
+	if depth > 2 {
+		return false
+	}
+	for g := range ssautil.AllFunctions(f.Prog) {
+		if g.Blocks == nil {
+			continue
+		}
+		for _, b := range g.Blocks {
+			for _, ins := range b.Instrs {
+				for _, op := range ins.Operands(nil) {
+					if *op != ssa.Value(f) {
+						continue
+					}
+					c, ok := ins.(*ssa.Call)
+					if !ok || c.Call.Value != ssa.Value(f) {
+						return false // f used as a value, or deferred / started as a goroutine
+					}
+					if !readOnlyUse(c, map[ssa.Value]bool{}, depth) {
+						return false
+					}
+				}
+			}
+		}
+	}
+	return true
+}
+
+func readOnlyUse(v ssa.Value, seen map[ssa.Value]bool, depth int) bool {
+	if seen[v] {
+		return true
+	}
+	seen[v] = true
+	refs := v.Referrers()
+	if refs == nil {
+		return true
+	}
+	for _, ref := range *refs {
+		switch x := ref.(type) {
+		case *ssa.DebugRef:
+		case *ssa.Index, *ssa.Lookup, *ssa.Field:
+			// an element or field by value: a copy
+		case *ssa.IndexAddr:
+			if x.X != v || !readOnlyAddr(x, seen) {
+				if os.Getenv("GDSA_DBG_MEMO") != "" {
+					fmt.Fprintf(os.Stderr, "  element address not read-only: %v in %s\n", x, x.Parent())
+				}
+				return false
+			}
+		case *ssa.Range:
+		case *ssa.Slice, *ssa.Phi, *ssa.ChangeType, *ssa.Extract, *ssa.TypeAssert:
+			if !readOnlyUse(x.(ssa.Value), seen, depth) {
+				return false
+			}
+		case *ssa.UnOp, *ssa.BinOp, *ssa.If:
+		case *ssa.Call:
+			if bi, ok := x.Call.Value.(*ssa.Builtin); ok && (bi.Name() == "len" || bi.Name() == "cap") {
+				continue
+			}
+			callee := x.Call.StaticCallee()
+			if callee == nil || callee.Blocks == nil || !inRepoOrRef(callee) || depth > 1 {
+				return false
+			}
+			for i, a := range x.Call.Args {
+				if a == v {
+					if i >= len(callee.Params) || !readOnlyUse(callee.Params[i], seen, depth+1) {
+						return false
+					}
+				}
+			}
+		case *ssa.Return:
+			fn := x.Parent()
+			if fn.Object() == nil || fn.Object().Exported() || !readOnlyResult(fn, depth+1) {
+				return false
+			}
+		default:
+			if os.Getenv("GDSA_DBG_MEMO") != "" {
+				fmt.Fprintf(os.Stderr, "  use refused: %T %v in %s\n", ref, ref, ref.Parent())
+			}
+			return false // stored, sent, captured, converted to an interface, ...
+		}
+	}
+	return true
+}
+
+func readOnlyAddr(a ssa.Value, seen map[ssa.Value]bool) bool {
+	refs := a.Referrers()
+	if refs == nil {
+		return true
+	}
+	for _, ref := range *refs {
+		switch x := ref.(type) {
+		case *ssa.DebugRef:
+		case *ssa.UnOp:
+			if x.Op != token.MUL {
+				return false
+			}
+			// the element loaded by value: a struct copy, whose own reference fields are read through
+		case *ssa.FieldAddr:
+			if !readOnlyAddr(x, seen) {
+				return false
+			}
+		case *ssa.IndexAddr:
+			if !readOnlyAddr(x, seen) {
+				return false
+			}
+		case *ssa.Call:
+			// the element's address handed to a repository function that only reads through it
+			callee := x.Call.StaticCallee()
+			if callee == nil || callee.Blocks == nil || !inRepoOrRef(callee) {
+				if os.Getenv("GDSA_DBG_MEMO") != "" {
+					fmt.Fprintf(os.Stderr, "    address passed to %v\n", x)
+				}
+				return false
+			}
+			if seen[callee] {
+				continue // already looked at (or being looked at: recursion)
+			}
+			seen[callee] = true
+			for i, arg := range x.Call.Args {
+				if arg == a {
+					if i >= len(callee.Params) || !readOnlyAddr(callee.Params[i], seen) {
+						return false
+					}
+				}
+			}
+		case *ssa.Phi:
+			if !readOnlyAddr(x, seen) {
+				return false
+			}
+		default:
+			if os.Getenv("GDSA_DBG_MEMO") != "" {
+				fmt.Fprintf(os.Stderr, "    address use refused: %T %v in %s\n", ref, ref, ref.Parent())
+			}
+			return false
+		}
+	}
+	return true
+}
+
+func memoNo(g *ssa.Global, where int) bool {
+	if os.Getenv("GDSA_DBG_MEMO") != "" {
+		fmt.Fprintf(os.Stderr, "memo %s refused at check %d\n", g.Name(), where)
+	}
+	return false
 }
